@@ -328,7 +328,11 @@ func execCase(c *run.Ctx, cs *Case) (onlyKnown bool) {
 }
 
 func execCaseOut(c *run.Ctx, cs *Case) (onlyKnown bool, out outcome) {
-	c.Begin(cs, 120*time.Second)
+	limit := 60 * time.Second
+	if cs.Kind == "shape" {
+		limit = 180 * time.Second // 2000-level nesting is quadratic in the compiler: seconds, more under load
+	}
+	c.Begin(cs, limit)
 	t0 := time.Now()
 	out, nilnil := runCase(c, cs)
 	c.End()
